@@ -51,7 +51,11 @@ def _gen_cfg(S, want_rt=None):
     isotopes = S.pick([0, 0, 0, 1, [0, 1], [0, 2], [1, 3], [0, 1, 2]])
     custom = None
     if S.coin(0.4):
-        custom = [[S.pick(['[ST]', 'K', '[DE]', 'P', 'A', '[KR]', 'M']), S.pick([-18.0, -17.5, -98.0, -10.25, 5.5])]
+        # single-residue classes, multi-residue motifs and anchored patterns; values that may coincide with each
+        # other or with the built-in water / ammonia losses
+        custom = [[S.pick(['[ST]', 'K', '[DE]', 'P', 'A', '[KR]', 'M', 'DE', 'AA', 'K$', '^P', 'P[ST]', '[KR][KR]', 'E',
+                           '[STED]', 'L.', '.K']),
+                   S.pick([-18.0, -17.5, -98.0, -10.25, 5.5, -18.01056, -17.02655, -18.01056])]
                   for _ in range(S.randint(1, 2))]
         if len(custom) == 2 and custom[0][1] == custom[1][1]:
             custom = custom[:1]
@@ -101,6 +105,8 @@ def gen_plan(S, index, tier):
             sp, where, val = SP.poison(S, sp)
         poisoned = [where, val]
     pool = {'A0': {'kind': 'ann', 'via': S.pick(['parse', 'create']), 'spec': sp}}
+    if pool['A0']['via'] == 'create':
+        pool['A0']['order'] = SP.gen_order(S, sp)
     events = []
     nfr = 0
     nres = 0
